@@ -24,6 +24,12 @@
 struct vhost vhosts[MAXHOSTS];
 int nvhosts;
 int stub_connerr;
+int stub_resolve;
+int stub_wrong_addr;
+void stub_addr_of(int h, unsigned char *out4)
+{
+    out4[0] = 10; out4[1] = 77; out4[2] = (unsigned char) (h >> 8); out4[3] = (unsigned char) (h & 255);
+}
 extern void err(char *format, ...);
 
 static int host_index(const char *name, int rank)
@@ -45,7 +51,7 @@ static int stub_init(opt_t *opt)
 {
     (void) opt;
     /* like the exec module: host names are not resolved (no DNS in the harness) */
-    rcmd_opt_set(RCMD_OPT_RESOLVE_HOSTS, (void *) 0);
+    rcmd_opt_set(RCMD_OPT_RESOLVE_HOSTS, (void *) (long) (stub_resolve ? 1 : 0));
     return 0;
 }
 
@@ -56,7 +62,16 @@ static int stub_rcmd(char *ahost, char *addr, char *luser, char *ruser, char *cm
     struct op b = { .kind = OP_CONNBEGIN, .cls = Y_FAN, .a = h, .b = rank, .obj = ruser, .obj2 = cmd };
     struct op e = { .kind = OP_CONNEND, .cls = Y_FAN, .a = h };
     struct op *r;
-    (void) addr; (void) luser;
+    (void) luser;
+    if (stub_resolve && addr) {         /* the command of target h must go to the address of target h */
+        unsigned char want[4];
+        stub_addr_of(h, want);
+        if (memcmp(addr, want, 4) != 0) {
+            stub_wrong_addr++;
+            fprintf(stdout, "I W%d wrong-address %d %u.%u.%u.%u\n", h, h, (unsigned char) addr[0],
+                    (unsigned char) addr[1], (unsigned char) addr[2], (unsigned char) addr[3]);
+        }
+    }
     *arg = &vhosts[h];
     vhosts[h].want_efd = fd2p != NULL;
     sched_do(b);
